@@ -11,6 +11,8 @@ PROPS = {
     "C05": {"level": "proof", "areas": CORE + ["GenWriter"], "theorems": ["C05_parse_iff_valid", "C05_from_str", "C05_decoded_valid"], "streams": ["nametext"]},
     "C18": {"level": "proof", "areas": ["GenConst", "GenNames"], "theorems": ["C18_eq_iff_cmp", "C18_eq_is_fold", "C18_cmp_is_lex", "C18_cmp_antisym", "C18_cmp_trans", "C18_hash", "C18_hash_is_fold"], "streams": ["nameord"]},
     "C11": {"level": "proof", "areas": CORE + ["GenWriter", "GenQuery", "GenHeader"], "theorems": ["C11_no_oob_write", "C11_refuse_invalid", "C11_name_encoder_sound", "C11_std_async_same", "C11_example"], "streams": ["wire"]},
+    "C06": {"level": "exploration", "areas": DEC + ["GenHeader"], "theorems": [], "streams": ["rrset"]},
+    "C07": {"level": "proof", "areas": DEC + ["GenHeader"], "theorems": ["C07_gates_sound", "C07_gate_errors", "C07_extended_rcode"], "streams": ["rrset", "decode"]},
     "C08": {"level": "proof", "areas": DEC, "theorems": ["C08_name_types_agree", "C08_read_implies_skip", "C08_random_access_view"], "streams": ["views"]},
     "C10": {"level": "proof", "areas": DEC, "theorems": ["C10_at_pure", "C10_history_independent", "C10_witness"], "streams": ["randacc"]},
     "C17": {"level": "proof", "areas": DEC, "theorems": ["C17_no_ub", "C17_slices_inside"], "streams": ["misuse"]},
@@ -23,6 +25,8 @@ PROPS = {
 }
 
 TEXT = {
+ "C06": {"text": "RecordSet::from_msg is modelled in Gallina (RecordSet.v, tied by the decode/rrset streams) and compared on CNAME-graph responses (chains, forks, loops, dangling, case variations, decoys, all 17 types, all layouts) with a 20-line resolver over the generated AST written independently in the checker; loops are detected as HANG. No Coq theorem relates from_msg to the resolver yet, hence exploration level.", "technique": "differential testing against a code-blind resolver over generated ASTs; Gallina model tied by extraction"},
+ "C07": {"text": "Coq theorems for ALL byte strings: a returned record set implies <=65535 octets, QR=1, TC=0, exactly one question, RCODE nibble 0 (and zero OPT extension inside the proof); each gate yields its specific error with the offending value in the documented order; the 12-bit code is base+16*ext (finite sweep). Stream: gate combinations x OPT positions against the AST oracle."},
  "C08": {"text": "Coq theorems for all byte strings: Name and InlineName decoding agree exactly (values, errors, payloads, resume); owned-name decoding succeeding implies skipping succeeds at the same resume byte; random access equals a pure function of (message, marker). The remaining view relations (bare marker / borrowed / owned headers, iterator vs reader, NameRef::eq vs comparison of decoded names, label iteration vs decoding of RDATA names) are decided by the views stream on the implementation alone: stated as partial."},
  "C01": {"text": "Proved in Coq for all byte strings: the label/pointer walker (the only loop driven by attacker-chosen pointers) returns a value or an error within 34*(|buf|+2) iterations (measure given); every cursor primitive is total; no call of ANY script, conforming or not, reaches an out-of-bounds access. Panic-freedom of the tracker arithmetic and of the iterator/from_msg drivers for conforming scripts is carried by the differential streams (scripts, decode: debug build with overflow/ub checks + release build with guard pages), not yet by a theorem: stated as partial.",
          "technique": "Coq proof (termination measure, no-UB invariant over arbitrary scripts) + differential streams"},
